@@ -326,7 +326,7 @@ def run(ctx):
     exe, log = ctx.ocaml_driver('Extract/Extract_Location.v', 'location_model', 'driver_c16')
     if exe is None:
         ctx.broken('correspondence', 'extraction/driver build', log[-1500:])
-    n_coq = ctx.n(120, 400)          # per stream: cases additionally evaluated inside Coq (cross-check of the extraction)
+    n_coq = ctx.n(60, 400)           # per stream: cases additionally evaluated inside Coq (cross-check of the extraction)
 
     def compare(stream, items, eqb, runf, describe):
         """items: list of dicts {line, want, lit_in, lit_out, info}.  Full volume through the extracted model,
@@ -350,7 +350,7 @@ def run(ctx):
     def run_coq_job(job):
         stream, sub, eqb, runf, describe = job
         mism, err = ctx.coq_mism(stream.replace('-', ''), HEADER, eqb, runf, [(it['lit_in'], it['lit_out']) for it in sub],
-                                 deps=DEPS, shard=40)
+                                 deps=DEPS, shard=30)
         return stream, sub, runf, describe, mism, err
 
     coq_jobs = []
